@@ -112,6 +112,12 @@ func c11Calls(proc string, h []byte, hs [][]byte) []struct {
 			add(fsx.Op{Size: sz, Mtime: 5, Atime: 6})
 		}
 		add(fsx.Op{NoSize: true, Mtime: 1<<32 - 1})
+		for perm := 0; perm < 8; perm++ {
+			for st := 0; st < 4; st++ {
+				add(fsx.Op{NoSize: true, Perm: perm, STime: st})
+				add(fsx.Op{Size: 100, Perm: perm, STime: st})
+			}
+		}
 	case "LOOKUP", "MKDIR", "MKNOD", "REMOVE", "RMDIR":
 		for _, n := range c11Names {
 			add(fsx.Op{N: n})
